@@ -403,8 +403,14 @@ class Ledger(metaclass=LedgerRegistry):
                 # Nothing to do, network thinks we're already at the latest height.
                 return
 
+            replacing = height < len(self.headers)
             added = await self.headers.connect(height, unhexlify(headers))
             if added > 0:
+                if replacing:
+                    # headers at heights we already had were replaced without going through the rewind branch
+                    # below (a competing tip of the same height connects directly): transactions cached as
+                    # verified against the replaced headers must be fetched and verified again
+                    self._tx_cache.clear()
                 height += added
                 self._on_header_controller.add(
                     BlockHeightEvent(self.headers.height, added))
